@@ -305,17 +305,18 @@ theorem inv_install {db0 : Nat → Option Entry} {g g' : G} {i : Nat} (inv : Inv
 
 /-- one step keeps the invariant -/
 theorem inv_step {db0 : Nat → Option Entry} {g : G} (i : Nat) (hint : List Nat) (inv : Inv db0 g)
-    (hcov : Covered g) (hshape : Shape g) (hb : BeginSound g i hint) : Inv db0 (step g i hint) := by
-  rcases step_spec g i hint with ⟨_, h⟩ | ⟨hpc, h⟩ | ⟨hpc, h⟩ | ⟨h1, h2, _, h⟩
+    (hcov : Covered g) (hshape : Shape g) (hck : ChecksAll g) (hb : BeginSound g i hint) : Inv db0 (step g i hint) := by
+  rcases step_spec g hck i hint with ⟨_, h⟩ | ⟨hpc, h⟩ | ⟨hpc, h⟩ | ⟨h1, h2, _, h⟩
   · rw [h]; exact inv
   · exact inv_begin inv hpc h (hb hpc)
   · exact inv_install inv hcov hshape hpc h
   · exact inv_other inv (fun h3 => live_of_step h1 h2 h3) h
 
-/-- the hypotheses along a run: every state reached is `Covered` and `Shape`, every work step is `BeginSound` -/
+/-- the hypotheses along a run: every state reached is `Covered` and `Shape`, the merge replay compares every kind of
+    tracked action with `versionInDB` (`ChecksAll`: the code as it is), every work step is `BeginSound` -/
 def Good : G → List (Nat × List Nat) → Prop
-  | g, [] => Covered g ∧ Shape g
-  | g, s :: rest => Covered g ∧ Shape g ∧ BeginSound g s.1 s.2 ∧ Good (step g s.1 s.2) rest
+  | g, [] => Covered g ∧ Shape g ∧ ChecksAll g
+  | g, s :: rest => Covered g ∧ Shape g ∧ ChecksAll g ∧ BeginSound g s.1 s.2 ∧ Good (step g s.1 s.2) rest
 
 theorem inv_run {db0 : Nat → Option Entry} : ∀ (sched : List (Nat × List Nat)) (g : G), Inv db0 g → Good g sched → Inv db0 (run g sched) := by
   intro sched
@@ -323,8 +324,8 @@ theorem inv_run {db0 : Nat → Option Entry} : ∀ (sched : List (Nat × List Na
   | nil => intro g inv _; exact inv
   | cons s rest ih =>
     intro g inv hg
-    obtain ⟨hc, hs, hb, hrest⟩ := hg
-    exact ih _ (inv_step s.1 s.2 inv hc hs hb) hrest
+    obtain ⟨hc, hs, hk, hb, hrest⟩ := hg
+    exact ih _ (inv_step s.1 s.2 inv hc hs hk hb) hrest
 
 /-- initial states: empty history, every transaction not yet begun (or absent) -/
 def Init (g : G) : Prop := g.hist = [] ∧ ∀ i, (g.txns i).pc = .begin ∨ (g.txns i).pc = .done
